@@ -57,6 +57,8 @@ def run(ctx):
     from .. import sanitiser
     sanitiser.check(ctx, 'C14.4')
     ctx.floor('C14.4', 3, 'returns / not-found exit of coord_to_index')
+    ctx.rule('C14.5', 'a failed bounds guard raises IndexError')
+    guard_exceptions(ctx, None)
     B = BoundsAnalysis(P, G)
     entries = public_entry_points(P, G, B)
     seen_fail = set()
@@ -100,6 +102,18 @@ def run(ctx):
                     n_relax += 1
                     private = f.name.startswith('_') and not f.name.startswith('__')
                     viol = [x for x in ctx.findings if x.rule == 'C14.2' and x.func == f.qualname]
+                    # a public method may relax the callee's bounds only around values derived from its own (checked)
+                    # parameters by block alignment; a bare padded extent as an argument hands padding to the user
+                    if not private:
+                        tn = B.taint(f)
+                        allnames = set().union(*tn.values()) if tn else set()
+                        bare = [(q, x) for q, x in e.binding.items() if q not in ('access_padding', 'multithreading') and
+                                any(mk in U(x) for mk in RF.PADDED_MARKERS) and not B.tainted_names_in(f, x, allnames)]
+                        if bare:
+                            ctx.fail('C14.2', f, e.call, 'public method %s passes access_padding=True with `%s` = `%s`, a padded extent '
+                                     'that is not derived from a checked parameter: padding voxels are returned to the caller' % (
+                                         f.name, bare[0][0], U(bare[0][1])), line=e.call.lineno)
+                            continue
                     if private or not viol:
                         ctx.ok('C14.2', f, e.call, 'relaxing call from %s method; index arguments bounded by real extents'
                                % ('private' if private else 'public'))
@@ -110,3 +124,35 @@ def run(ctx):
     ctx.floor('C14.1', 25, 'parameter obligations over the read API')
     ctx.floor('C14.2', 1, 'access_padding=True call sites')
     ctx.notes.append('sanitiser functions: %s' % sorted(B.san))
+
+
+def guard_exceptions(ctx, _b):
+    """C14.5: `if <ordering comparison on an index / window>: raise X` in the read API - X is IndexError."""
+    P = ctx.P
+    n = 0
+    classes = RF.reader_classes(P)
+    for c in classes:
+        if c.qualname in WRITERS:
+            continue
+        for m in c.methods.values():
+            for st in ast.walk(m.node):
+                if not (isinstance(st, ast.If) and len(st.body) == 1 and isinstance(st.body[0], ast.Raise)):
+                    continue
+                cmps = [x for x in ast.walk(st.test) if isinstance(x, ast.Compare) and
+                        any(isinstance(o, (ast.Lt, ast.LtE, ast.Gt, ast.GtE)) for o in x.ops)]
+                if not cmps:
+                    continue
+                names = {y.id for x in cmps for y in ast.walk(x) if isinstance(y, ast.Name)}
+                if not (names & set(m.params)) and not any(isinstance(y, ast.Attribute) and y.attr in ('start', 'stop', 'step')
+                                                           for x in cmps for y in ast.walk(x)):
+                    continue
+                n += 1
+                exc = st.body[0].exc
+                name = U(exc.func) if isinstance(exc, ast.Call) else U(exc)
+                if name == 'IndexError':
+                    ctx.ok('C14.5', m, st.test, 'out-of-range -> IndexError', nontrivial=False)
+                else:
+                    ctx.fail('C14.5', m, st.body[0], 'the bounds guard `%s` raises %s, the read API promises IndexError for an '
+                             'out-of-range argument' % (U(st.test)[:60], name))
+    if n < 15:
+        raise AnalysisError('bounds guards of the read API: only %d found' % n)
